@@ -15,6 +15,8 @@ def check(ctx):
     ctx.sub(s2_s3_call)
     ctx.sub(s4_order_diff)
     ctx.sub(s5_sizers)
+    from . import c08
+    ctx.sub(c08.execution)             # once those orders fill: every order returned is submitted, none filtered
 
 
 # ------------------------------------------------------------------------------------------------ matchers
